@@ -286,6 +286,19 @@ func (w *world) runAccess(x *consumer, ctx context.Context) {
 			w.gates = append(w.gates, g)
 			if simrt.Select("refcountx.access-cb-wait", simrt.Recv(cbCtx.Done()), simrt.Recv(g)) == 0 {
 				c.S.Count("probe:access-cb-cancelled")
+				// the callback's context is cancelled when its value is invalidated or the
+				// caller's context is cancelled - not otherwise
+				// (skipped when the resolver handed this pointer out more than once: then
+				// it cannot be told which result the callback was given)
+				nsame := 0
+				for _, o := range w.calls {
+					if o.v == v && (v != nil || o.zero) {
+						nsame++
+					}
+				}
+				if x.cancelReq == 0 && rc != nil && nsame == 1 && rc.rel == 0 && !w.invalidated(rc, c.Tick()) {
+					c.Fail("C10.A2.callback-cancelled-without-cause", "the context of an Access callback running on value %d was cancelled although the value has not been invalidated or released and the caller's context is live", rc.n)
+				}
 				if beh == 2 {
 					inv.err = cbCtx.Err()
 					return inv.err
